@@ -295,6 +295,11 @@ def pTrailers : Nat → Ex → List Tok → Option (Ex × List Tok)
   | fuel + 1, a, ts =>
     match ts with
     | .lp :: .rp :: r => pTrailers fuel (.call a none) r
+    | .lp :: .star :: r =>
+      -- `f(*e)`: Python evaluates f, then e, then raises TypeError (like any other call here)
+      match pSum fuel r with
+      | some (e, .rp :: r') => pTrailers fuel (.call a (some e)) r'
+      | _ => none
     | .lp :: r => match pSum fuel r with
       | some (e, .rp :: r') => pTrailers fuel (.call a (some e)) r'
       | _ => none
